@@ -172,14 +172,12 @@ impl Atom {
             if escape_whitespace {
                 let mut saw_backslash = false;
                 for mut c in chars::graphemes(needle) {
-                    if saw_backslash {
-                        if c == ' ' {
-                            needle_.push(' ');
-                            saw_backslash = false;
-                            continue;
-                        } else {
-                            needle_.push('\\');
-                        }
+                    if saw_backslash && c == ' ' {
+                        // the backslash has already been pushed, replace it with the escaped space
+                        needle_.pop();
+                        needle_.push(' ');
+                        saw_backslash = false;
+                        continue;
                     }
                     saw_backslash = c == '\\';
                     match case {
